@@ -360,7 +360,7 @@ func init() {
 			if tier == "thorough" {
 				pars = append(pars, par{[]int{4, 4}, []int{0, 1}}, par{[]int{2, 2, 3}, []int{0, 2}}, par{[]int{2, 3, 2}, []int{0}}, par{[]int{3, 2, 2, 2}, []int{0, 3}})
 			}
-			writes := []string{"memset", "zero", "setat", "copy", "neg", "add", "addscalar"}
+			writes := []string{"memset", "zero", "setat", "copy", "neg", "add", "addscalar", "sub", "mul"}
 			n := 0
 			for _, p := range pars {
 				for _, base := range []string{"C", "F"} {
@@ -377,6 +377,8 @@ func init() {
 								dts := []string{"float64"}
 								if w == "memset" || w == "zero" || w == "copy" || w == "setat" {
 									dts = []string{"float64", "int8", "int16", "float32", "complex128", "string", "bool"}
+								} else if w == "sub" || w == "mul" {
+									dts = []string{"int", "int16", "float32", "int64", "uint8"}
 								} else {
 									dts = []string{"float64", "int", "int8", "complex128"}
 								}
@@ -385,6 +387,9 @@ func init() {
 									if tier == "quick" {
 										full := base == "C" && view == "slice" && len(p.s) == 2 && p.s[0] == 3
 										if !full && (n+wi+di)%5 != 0 {
+											continue
+										}
+										if (w == "sub" || w == "mul") && !full && (n+di)%3 != 0 {
 											continue
 										}
 									} else if base == "F" && (n+di)%2 != 0 {
@@ -443,8 +448,8 @@ func init() {
 						}
 						// conversion to a gonum matrix (a copy in safe mode): matrices of the real numeric dtypes, every layout
 						if len(sh) == 2 || (len(sh) == 3 && li == 0 && lt == 0) {
-							for di, dt := range []string{"float64", "float32", "int8", "int16", "int"} {
-								if tier == "quick" && di > 1 && (si+li+di+lt)%3 != 0 {
+							for di, dt := range []string{"float64", "float32", "int8", "int16", "int", "uint8", "uint16", "int32", "int64", "uint32", "uint", "uint64"} {
+								if tier == "quick" && di > 1 && (si+li+di+lt)%3 != 0 && !(li == 0 && lt == 0 && len(sh) == 2) {
 									continue
 								}
 								out = append(out, mkInst("vhC04Copy", map[string]interface{}{"dtype": dt, "shape": sh, "layout": lay, "lazyT": lt, "op": "tomat64"}, "dtype", "shape", "layout", "lazyT", "op"))
